@@ -317,7 +317,8 @@ where
         // the reference must point into one of the two operands
         let a = k as *const K as usize;
         let (b0, s0) = ranges[0];
-        let (base, size) = if a >= b0 && a < b0 + s0.max(1) { ranges[0] } else { ranges[1] };
+        // end inclusive: a zero-sized element of an otherwise empty-bodied set sits at the very end of it
+        let (base, size) = if a >= b0 && a <= b0 + s0 { ranges[0] } else { ranges[1] };
         cx.see_k(what, k, base, size);
     };
     match how {
